@@ -116,6 +116,16 @@ fn replay(c: &mut Collector, rep: &Value) {
     let case = &rep["case"];
     let hue = case["hue"].as_str().unwrap_or("");
     let ty = case["ty"].as_str().unwrap_or("");
+    if case["sub"] == "wide-eq" {
+        // small space: the sub-check is re-run and only the replayed signature kept
+        let ctx = Ctx { only: Some(format!("wide-equality/{ty}")), ..Ctx::from_args("C11").0 };
+        let mut all = Collector::new();
+        widec::wide_equality(&ctx, &mut all);
+        let want = rep["signature"].as_str().unwrap_or("").to_string();
+        all.viol.retain(|k, _| *k == want);
+        c.merge(all);
+        return;
+    }
     if case["sub"] == "wide" {
         let bits: Vec<u64> = case["input"].as_array().map(|a| a.iter().map(parse_hex).collect()).unwrap_or_default();
         widec::replay_wide(c, hue, ty, &bits);
@@ -161,6 +171,7 @@ fn real_main() -> i32 {
     for_all!(subs::cartesian, &ctx, &mut total);
     for_all!(subs::arith, &ctx, &mut total);
     widec::wide_lanes(&ctx, &mut total);
+    widec::wide_equality(&ctx, &mut total);
     ctx.finish(
         total,
         "model_checking",
